@@ -109,6 +109,8 @@ def render_do(dofile, spec):
             L.append("v_out %s" % st[1])
         elif k == "stamp":
             L.append("v_stamp")
+        elif k == "sleep":
+            L.append("sleep %s" % ("%.3f" % (st[1] / 1000.0)))
         elif k == "raw":
             L.append(st[1])
         else:
@@ -187,6 +189,9 @@ class Disk:
             self.write(s, source_content(s, 0))
         for dof, spec in proj.get("dofiles", {}).items():
             self.write(dof, render_do(dof, spec).encode())
+        for name, text in proj.get("errfiles", {}).items():
+            with open(os.path.join(self.ctl, name), "wb") as f:
+                f.write(text.encode("utf-8"))
 
     def set_ext(self, name, val):
         with open(os.path.join(self.ctl, "ext." + name), "w") as f:
